@@ -44,25 +44,53 @@ def check_fresh(ctx):
               "analysis object, so every cell accumulates the values of all cells", detail="cells = init_bins(edges, seq, deepcopy=True)",
               construct="init-bins-deepcopy")
     ib = ctx.tree.func(HF, "init_bins")
+    ips = A.func_params(ib)
+    if not ctx.require(len(ips) == 3, "C11-a", ib, "init_bins: parameters (edges, value, deepcopy) expected"):
+        return
+    pval, pflag = ips[1], ips[2]
     # every construction of a list of `value`s under `deepcopy` true copies per element
     n = 0
+
+    def deref(p, expr, upto, depth=0):
+        """last definition of a local on the path before event `upto` (transitively)."""
+        while isinstance(expr, ast.Name) and depth < 6:
+            ds = [(i, e[1]) for i, e in enumerate(p.ev[:upto]) if e[0] == "stmt" and isinstance(e[1], ast.Assign)
+                  and any(isinstance(t, ast.Name) and t.id == expr.id for t in e[1].targets)]
+            if not ds:
+                break
+            upto, expr = ds[-1][0], ds[-1][1].value
+            depth += 1
+        return expr
+
+    def replicates(node):
+        """[value] * n  /  n * [value]: n references to one object."""
+        for x in ast.walk(node):
+            if isinstance(x, ast.BinOp) and isinstance(x.op, ast.Mult):
+                for side in (x.left, x.right):
+                    if isinstance(side, (ast.List, ast.Tuple)) and any(isinstance(e, ast.Name) and e.id == pval for e in side.elts):
+                        return x
+        return None
+
     for p in P.paths_of(ib):
-        lits = p.literal_srcs()
-        rets = [s for s in p.stmts() if isinstance(s, ast.Return)]
-        for r in rets:
-            v = r.value
-            mentions_value = any(isinstance(x, ast.Name) and x.id == "value" for x in ast.walk(v)) if v is not None else False
-            if not mentions_value:
+        flag = [pol for t, pol in p.literals() if isinstance(t, ast.Name) and t.id == pflag]
+        rets = [(i, e[1]) for i, e in enumerate(p.ev) if e[0] == "stmt" and isinstance(e[1], ast.Return)]
+        for i, r in rets:
+            v = deref(p, r.value, i) if r.value is not None else None
+            executed = [e[1] for e in p.ev[:i + 1] if e[0] == "stmt"]
+            mentions_value = v is not None and any(isinstance(x, ast.Name) and x.id == pval for x in ast.walk(v))
+            reps = [x for st in executed for x in [replicates(st)] if x is not None]
+            if not (mentions_value or reps):
                 continue
             n += 1
-            if "deepcopy" in lits:
-                ok = isinstance(v, ast.ListComp) and res.is_call_to(v.elt, "copy.deepcopy") and A.src(v.elt.args[0]) == "value"
-                ctx.check("C11-a", ok, r, "init_bins with deepcopy set returns `%s`: every cell must get its own copy.deepcopy(value) "
-                          "(a copy made once and repeated, or no copy, makes cells share state)" % A.src(v),
+            if flag and flag[-1]:
+                ok = isinstance(v, ast.ListComp) and res.is_call_to(v.elt, "copy.deepcopy") and A.src(v.elt.args[0]) == pval and not reps
+                why = ("replicates one object with `%s` (a later deepcopy of the whole list keeps the n references identical: its memo "
+                       "maps them to one copy)" % A.src(reps[0])) if reps else "returns `%s`" % A.src(v)
+                ctx.check("C11-a", ok, r, "init_bins with deepcopy set %s: every cell must get its own copy.deepcopy(value) made per "
+                          "element (a copy made once and repeated, or no copy, makes cells share state)" % why,
                           detail="deepcopy branch copies per cell", construct="init_bins:%s" % A.src(v)[:60], path=p)
-    ctx.instances_floor("C11-a/init_bins", n, 2, "value-list constructions in init_bins")
     rec = [c for c in A.walk_local(ib) if isinstance(c, ast.Call) and A.call_name(c) == "init_bins"]
-    ctx.check("C11-a", bool(rec) and all(len(c.args) == 3 and A.src(c.args[2]) == "deepcopy" and A.src(c.args[1]) == "value" for c in rec), ib,
+    ctx.check("C11-a", bool(rec) and all(len(c.args) == 3 and A.src(c.args[2]) == pflag and A.src(c.args[1]) == pval for c in rec), ib,
               "init_bins does not pass value and the deepcopy flag on to the nested dimensions", detail="recursion passes the flag on",
               construct="init_bins-recursion")
     # MapBins
@@ -94,7 +122,20 @@ def check_routing(ctx):
     ctx.instances_floor("C11-b", n, 1, "guarded cell subscripts")
     idx = [a for a in A.walk_local(fn) if isinstance(a, ast.Assign) and isinstance(a.value, ast.Call)
            and res.canon(a.value.func) == HF + ".get_bin_on_value"]
-    ok = len(idx) == 1 and len(idx[0].value.args) == 2 and A.src(idx[0].value.args[0]) == "self._arg_func(data)" \
+    # the local that holds the data part of the filled value
+    val = [p for p in A.func_params(fn) if p != "self"][0]
+    dnames = set()
+    for a in A.walk_local(fn):
+        if isinstance(a, ast.Assign) and isinstance(a.value, ast.Call) and a.value.args and A.src(a.value.args[0]) == val:
+            canon = res.call_canon(a.value)
+            if canon == "lena.flow.functions.get_data_context" and isinstance(a.targets[0], ast.Tuple) and len(a.targets[0].elts) == 2 \
+                    and isinstance(a.targets[0].elts[0], ast.Name):
+                dnames.add(a.targets[0].elts[0].id)
+            elif canon == "lena.flow.functions.get_data" and isinstance(a.targets[0], ast.Name):
+                dnames.add(a.targets[0].id)
+    ok = len(idx) == 1 and len(idx[0].value.args) == 2 and isinstance(idx[0].value.args[0], ast.Call) \
+        and A.src(idx[0].value.args[0].func) == "self._arg_func" and len(idx[0].value.args[0].args) == 1 \
+        and (A.src(idx[0].value.args[0].args[0]) in dnames or res.call_canon(idx[0].value.args[0].args[0]) == "lena.flow.functions.get_data") \
         and A.src(idx[0].value.args[1]) == "self.edges"
     ctx.check("C11-b", ok, fn, "SplitIntoBins.fill does not compute the cell as get_bin_on_value(self._arg_func(data), self.edges)",
               detail="cell index = get_bin_on_value(arg_var(data), edges)", construct="routing-index")
@@ -158,6 +199,17 @@ def check_once_order(ctx):
 def check_shape(ctx):
     res = ctx.res
     run = ctx.tree.func(SIB, "MapBins.run")
+    # the local holding the input histogram: first target of `h, c = get_data_context(<loop value>)`
+    hvar = None
+    floops = [l for l in A.walk_local(run) if isinstance(l, ast.For) and A.src(l.iter) == "flow" and isinstance(l.target, ast.Name)]
+    if floops:
+        for a in A.walk_body(floops[0].body):
+            if isinstance(a, ast.Assign) and isinstance(a.value, ast.Call) and res.call_canon(a.value) == "lena.flow.functions.get_data_context" \
+                    and a.value.args and A.src(a.value.args[0]) == floops[0].target.id and isinstance(a.targets[0], ast.Tuple) \
+                    and isinstance(a.targets[0].elts[0], ast.Name):
+                hvar = a.targets[0].elts[0].id
+    if not ctx.require(hvar is not None, "C11-d", run, "MapBins.run: the local holding the input histogram was not found"):
+        return
     hc = [c for c in A.walk_local(run) if isinstance(c, ast.Call) and res.canon(c.func) == "lena.structures.histogram.histogram"]
     ok = len(hc) == 1
     if ok:
@@ -166,28 +218,44 @@ def check_shape(ctx):
         if isinstance(e, ast.Name):
             a = [x for x in A.walk_local(run) if isinstance(x, ast.Assign) and any(A.src(t) == e.id for t in x.targets)]
             esrc = a[0].value if len(a) == 1 else None
-        ok = esrc is not None and res.is_call_to(esrc, "copy.deepcopy") and A.src(esrc.args[0]) == "hist.edges"
+        ok = esrc is not None and res.is_call_to(esrc, "copy.deepcopy") and A.src(esrc.args[0]) == "%s.edges" % hvar
     ctx.check("C11-d", ok, run, "MapBins.run does not build its result over copy.deepcopy(hist.edges) of the same histogram",
               detail="result has the (deep-copied) edges of the input histogram", construct="mapbins-edges")
     gens = [c for c in A.walk_local(run) if isinstance(c, ast.Call) and A.call_name(c) in ("_MdSeqMap", "md_map") and len(c.args) == 2
             and isinstance(c.args[0], ast.Lambda)]
-    ctx.check("C11-d", len(gens) == 1 and A.src(gens[0].args[1]) == "hist.bins", run, "MapBins.run does not map the sequence over hist.bins",
+    ctx.check("C11-d", len(gens) == 1 and A.src(gens[0].args[1]) == "%s.bins" % hvar, run, "MapBins.run does not map the sequence over hist.bins",
               detail="sequence mapped over the bins of the same histogram", construct="mapbins-bins")
     mm = ctx.tree.func("lena.math.meshes", "md_map")
-    tests = [i for i in A.walk_local(mm) if isinstance(i, ast.If) and "isinstance(arr0" in A.src(i.test)]
-    ok = len(tests) == 1 and A.src(tests[0].test) == "isinstance(arr0, list)"
+    arrs = A.func_params(mm)[-1]
+    # the local holding the first item of the first array
+    a0 = [st.targets[0].id for st in A.walk_local(mm) if isinstance(st, ast.Assign) and len(st.targets) == 1
+          and isinstance(st.targets[0], ast.Name) and A.src(st.value) == "%s[0][0]" % arrs]
+    if not ctx.require(len(a0) == 1, "C11-d", mm, "md_map: the local holding arrays[0][0] was not found"):
+        return
+    a0 = a0[0]
+    tests = [i for i in A.walk_local(mm) if isinstance(i, ast.If) and "isinstance(%s" % a0 in A.src(i.test)]
+    ok = len(tests) == 1 and A.src(tests[0].test) == "isinstance(%s, list)" % a0
     ctx.check("C11-d", ok, mm, "md_map does not recurse on `isinstance(arr0, list)` only: tuples are (data, context) cells and must not be "
               "expanded", detail="md_map recurses into lists only", construct="md_map-recursion")
     if ok:
         body = tests[0].body
         rets = [r for r in body if isinstance(r, ast.Return)]
         okr = len(rets) == 1 and isinstance(rets[0].value, ast.ListComp) and A.call_name(rets[0].value.elt) == "md_map"
-        tup = [a for a in body if isinstance(a, ast.Assign) and "range(len(arrays[0]))" in A.src(a.value)]
+        tup = [a for a in body if isinstance(a, ast.Assign) and "range(len(%s[0]))" % arrs in A.src(a.value)]
         ctx.check("C11-d", okr and len(tup) == 1, mm, "md_map does not return one mapped element per element of the first array",
                   detail="result has the length of the input", construct="md_map-length")
     it = ctx.tree.func(SIB, "IterateBins.run")
     loops = [l for l in A.walk_local(it) if isinstance(l, ast.For) and A.call_name(l.iter) == "iter_bins_with_edges" if isinstance(l.iter, ast.Call)]
-    ok = len(loops) == 1 and [A.src(a) for a in loops[0].iter.args] == ["data.bins", "data.edges"]
+    dvar = None
+    floops = [l for l in A.walk_local(it) if isinstance(l, ast.For) and A.src(l.iter) == "flow" and isinstance(l.target, ast.Name)]
+    if floops:
+        for a in A.walk_body(floops[0].body):
+            if isinstance(a, ast.Assign) and isinstance(a.value, ast.Call) and res.call_canon(a.value) == "lena.flow.functions.get_data_context" \
+                    and a.value.args and A.src(a.value.args[0]) == floops[0].target.id and isinstance(a.targets[0], ast.Tuple) \
+                    and isinstance(a.targets[0].elts[0], ast.Name):
+                dvar = a.targets[0].elts[0].id
+                break
+    ok = len(loops) == 1 and dvar is not None and [A.src(a) for a in loops[0].iter.args] == ["%s.bins" % dvar, "%s.edges" % dvar]
     ctx.check("C11-d", ok, it, "IterateBins.run does not iterate iter_bins_with_edges(data.bins, data.edges)", detail="cells enumerated with their edges",
               construct="iteratebins-iter")
     if ok:
@@ -202,14 +270,76 @@ def check_shape(ctx):
                   "context.bin.edges", detail="context.bin.edges = this cell's edges", construct="iteratebins-edges")
 
 
+def check_iterate_fresh(ctx):
+    """IterateBins.run: whatever is put into the context yielded for a cell is made for that cell -- a deep copy, a
+    dictionary built inside the cell loop, or a scalar -- never an object that is the same for all cells of the
+    histogram (update_nested stores its third argument *and modifies it*)."""
+    res = ctx.res
+    it = ctx.tree.func(SIB, "IterateBins.run")
+    loops = [l for l in A.walk_local(it) if isinstance(l, ast.For) and isinstance(l.iter, ast.Call)
+             and A.call_name(l.iter) == "iter_bins_with_edges"]
+    if not ctx.require(len(loops) == 1, "C11-a", it, "IterateBins.run: cell loop not found"):
+        return
+    loop = loops[0]
+    inside = set()
+    for n in A.walk_body(loop.body):
+        if isinstance(n, ast.Name) and isinstance(n.ctx, ast.Store):
+            inside.add(n.id)
+    inside |= set(A.target_names(loop.target))
+    alias = {}
+    for st in A.walk_local(it):
+        if isinstance(st, ast.Assign) and len(st.targets) == 1 and isinstance(st.targets[0], ast.Name) \
+                and isinstance(st.value, ast.Attribute) and A.src(st.value) == "lena.context.update_nested":
+            alias[st.targets[0].id] = "update_nested"
+
+    def fresh(expr, depth=0):
+        if res.is_call_to(expr, "copy.deepcopy"):
+            return True
+        if isinstance(expr, ast.Constant):
+            return True
+        if isinstance(expr, ast.Dict):
+            # a dictionary made here; its values are this cell's (defined inside the loop) or fresh
+            return all(v is not None and (fresh(v, depth + 1) or (isinstance(v, ast.Name) and v.id in inside)) for v in expr.values)
+        if isinstance(expr, ast.Name) and expr.id in inside and depth < 4:
+            ds = [x for x in A.walk_body(loop.body) if isinstance(x, ast.Assign) and any(isinstance(t, ast.Name) and t.id == expr.id for t in x.targets)]
+            return len(ds) == 1 and fresh(ds[0].value, depth + 1)
+        return False
+
+    n = 0
+    for c in A.walk_body(loop.body):
+        if not isinstance(c, ast.Call):
+            continue
+        name = alias.get(c.func.id) if isinstance(c.func, ast.Name) else None
+        canon = res.call_canon(c)
+        if name == "update_nested" or canon == "lena.context.functions.update_nested":
+            other = c.args[2] if len(c.args) > 2 else A.kwarg(c, "other")
+        elif canon == "lena.context.functions.update_recursively":
+            other = c.args[1] if len(c.args) > 1 else A.kwarg(c, "other")
+        elif isinstance(c.func, ast.Attribute) and c.func.attr == "update" and c.args:
+            other = c.args[0]
+        else:
+            continue
+        n += 1
+        ctx.check("C11-a", other is not None and fresh(other), c, "IterateBins.run puts `%s` into the context of every cell: the object "
+                  "is the same for all cells of the histogram (and update_nested modifies it), so a change made for one cell shows in the "
+                  "others; it must be copy.deepcopy(...) or built inside the cell loop" % (A.src(other) if other is not None else "?"),
+                  detail="IterateBins: `%s` is made per cell" % (A.short(other, 50) if other is not None else "?"),
+                  construct="iteratebins-shared:%s" % (A.short(other, 50) if other is not None else "?"))
+    ctx.instances_floor("C11-a/iteratebins", n, 2, "context updates in the cell loop of IterateBins.run")
+
+
 def check(ctx):
     check_fresh(ctx)
+    check_iterate_fresh(ctx)
     check_routing(ctx)
     check_once_order(ctx)
     check_shape(ctx)
 
 
 VARIANTS = [
+    M("iteratebins-shared-hist-context", "lena/structures/split_into_bins.py", "update_nested(\"bins\", bin_context, copy.deepcopy(hist_context))", "update_nested(\"bins\", bin_context, hist_context)", ["C11-a"]),
+    M("init-bins-row-deepcopy", "lena/structures/hist_functions.py", "            if deepcopy:\n                return [copy.deepcopy(value) for _ in range(len(arr)-1)]\n            else:\n                return list([value] * (len(arr)-1))", "            row = [value] * (len(arr)-1)\n            if deepcopy:\n                row = copy.deepcopy(row)\n            return row", ["C11-a"]),
+    TW("init-bins-local", "lena/structures/hist_functions.py", "        if deepcopy:\n            return [copy.deepcopy(value) for _ in range(nbins)]\n        else:\n            return [value] * nbins", "        if deepcopy:\n            cells = [copy.deepcopy(value) for _ in range(nbins)]\n            return cells\n        else:\n            return [value] * nbins"),
     M("cells-share-seq", "lena/structures/split_into_bins.py", "init_bins(edges, seq, deepcopy=True)", "init_bins(edges, seq, deepcopy=False)", ["C11-a"]),
     M("init-bins-one-copy", "lena/structures/hist_functions.py", "            return [copy.deepcopy(value) for _ in range(nbins)]", "            return [copy.deepcopy(value)] * nbins", ["C11-a"]),
     M("mapbins-hoisted-copy", "lena/structures/split_into_bins.py", "            generators = _MdSeqMap(\n                lambda cell: copy.deepcopy(self._seq).run([cell]),",
